@@ -50,8 +50,8 @@ func TestVsim(t *testing.T) {
 		EmptyStatus: func() []byte {
 			return reportfeed.New(rtcmLog, circularQueue.NewCircularQueue(maxNumberOfMessagesStored)).Status()
 		},
-		QueueRaw:     vsimQueueRaw,
-		QueueCap:     maxNumberOfMessagesStored,
+		QueueRaw: vsimQueueRaw,
+		QueueCap: maxNumberOfMessagesStored,
 	}
 	hx.Main(t, &hx.Prop{ID: "C19", Run: lib.C19(hooks)})
 }
